@@ -393,8 +393,9 @@ def chain2(cx, c, A, B):
         ah = A.h if A.h is not None else {}
         bh = B.h if B.h is not None else {}
         for (i, j) in out.h:
+            # the two cross products are separate terms (they may cancel exactly; each is rounded on its own)
             ts = [en_mul(fx, ah.get((i, j), EZ)), en_mul(fy, bh.get((i, j), EZ)), en_mul(fxx, en_mul(A.g[i], A.g[j])),
-                  en_mul(fyy, en_mul(B.g[i], B.g[j])), en_mul(fxy, en_add(en_mul(A.g[i], B.g[j]), en_mul(B.g[i], A.g[j])))]
+                  en_mul(fyy, en_mul(B.g[i], B.g[j])), en_mul(fxy, en_mul(A.g[i], B.g[j])), en_mul(fxy, en_mul(B.g[i], A.g[j]))]
             sa = sum(abs(t[0]) for t in ts)
             out.h[(i, j)] = (sum(t[0] for t in ts), sum(t[1] for t in ts) + ue * sa + (fl if sa != 0 else ZERO))
     return out
@@ -590,11 +591,16 @@ def apply_op(T_, op, args, args2, par, k, shape):
     if op == "Abs":
         if A.v[0] == 0:
             raise NotDifferentiable(ZERO, "Abs at 0")
+        if abs(A.v[0]) <= A.v[1]:
+            raise OutOfDomain("Abs of a value that is zero within its error bound")
         return j_select(cx, A) if A.v[0] > 0 else j_neg(cx, A)
     if op in ("Min", "Max"):
         a, b = A.v[0], args[1].v[0]
         if a == b:
             raise NotDifferentiable(a, op + " of equal operands")
+        if abs(a - b) <= A.v[1] + args[1].v[1]:
+            # the operands are ordered by values the oracle only knows up to their bounds (global evaluation)
+            raise OutOfDomain(op + " of operands that are equal within their error bounds")
         return j_select(cx, A if ((a < b) == (op == "Min")) else args[1])
     if op == "Pow":
         return j_pow(cx, A, args[1])
@@ -876,7 +882,10 @@ def judge_program(ev, out):
                 supp |= supp_in[r[1]]
             elif r[0] == "n":
                 supp |= supports[r[1]]
-        lab = stmt_label(st, args, par, k)
+        try:
+            lab = stmt_label(st, args, par, k)
+        except (ValueError, OverflowError, ZeroDivisionError):
+            lab = "outside the domain"  # operands pushed out of the domain by a wrong value upstream
         cov["stmt:%s" % op] += 1
         cov["branch:%s:%s" % (op, lab)] += 1
         for r in refs + refs2:
